@@ -80,7 +80,7 @@ CHECKS.update({
    text="All 28 pairs and 6 triples of short pool/codec/transcript operations are explored without schedule bound (time cap reported where hit); heavy calls (Commit, MSM, BatchNormalize, IPA/multiproof prove and verify) paired with short and heavy calls under a time cap; every call's output must equal its sequential output, no deadlock state, shared fingerprint unchanged; any race report of the -race pass is a violation.",
    note="Sequential consistency at visible operations; data races delegated to the race detector on the executions it observes; heavy pairs capped by wall clock."),
  "C13": dict(cat="model_checking", ref="§3 C13, §2.6",
-   technique="explicit-state search on the deep fingerprint (reflect/unsafe, ~350 MB of tables + all package variables) of everything shared and mutable; 26-call menu from every reachable state, all histories of depth 2/3 with result digests and a probe",
+   technique="explicit-state search on the deep fingerprint (reflect/unsafe, ~350 MB of tables + all package variables) of everything shared and mutable; 26-call menu from every reachable state, all histories of depth 2/3 with result digests and a probe; every call of a 38-call menu repeated with its read-only arguments in mprotect'ed pages (any store into an input faults)",
    text="After every call the shared fingerprint equals the initial one (closed one-state transition system on a pure tree), every caller argument is bit-identical up to slice capacity (commitments may only be re-normalised), every call's result equals its fresh-state result at every position of every history of depth 2 (3 thorough), and a probe after each history is unchanged.",
    note="gnark-crypto internals are outside the fingerprint; menu arguments are fixed small inputs."),
  "C19": dict(cat="model_checking", ref="§3 C19",
